@@ -1,6 +1,6 @@
 SPECIFICATION Spec
 CONSTANTS Cells = {1} Algs = {0, 1, 2, 3, 4, 255} Keys = {1} Counts = {7} Bearers = {0, 31, 32, 255} Dirs = {0, 1, 2, 255}
-          Sym = {0, 1} MaxLen = 1 Pats <- OnePat MacVals <- TwoMacs Nil = Nil MaxPoints = 1 WithNil = TRUE
+          Sym = {0, 1} MaxLen = 1 Pats <- OnePat MacVals <- TwoMacs MaxRes = 0 MacTop = 1 Nil = Nil MaxPoints = 1 WithNil = TRUE
 INVARIANTS TypeOK Accounting LengthPreserved Involution
 PROPERTIES ErrUntouched GuardExact NullIdentity MacShape MacPure
 CHECK_DEADLOCK FALSE
